@@ -61,3 +61,44 @@ func VerifHarness_C17_forkchoice() {
 	zzverif.SharedEnd()
 	zzverif.Assert(zzverif.LocksHeld() == 0, "every lock is released when the call returns")
 }
+
+// VerifHarness_C17_update_interleave: two overlapping UpdateJustified calls (justified epoch 1 and epoch 2 on one
+// chain) leave the store as some sequential order of the two leaves it. Call B is run as a whole at the k-th point where
+// call A releases the instance's lock (the engine's unlock hook): with the lock held for the whole call there is exactly
+// one such point (the end) and the result is the serial A;B; a call that decides "newer than the store" under one
+// critical section and writes under another lets B slip in between and ends with the older checkpoint.
+// Bounds: chain P0(0) - P1(2) - P2(4) with 2 slots per epoch, one validator, B inserted at unlock point k = 0..3.
+func VerifHarness_C17_update_interleave() {
+	s, fcI, _ := vNewWorldSink(3, 1)
+	f := fcI.fc
+	f.ProcessBlock(s.pool[0], s.pool[1], Slot(s.spe), 0, 0)
+	f.ProcessBlock(s.pool[1], s.pool[2], Slot(2*s.spe), 0, 0)
+	fin := Checkpoint{Root: s.pool[0], Epoch: 0}
+	cpA := Checkpoint{Root: s.pool[1], Epoch: 1}
+	cpB := Checkpoint{Root: s.pool[2], Epoch: 2}
+	bals := func() ([]Gwei, error) { return []Gwei{1}, nil }
+	k := zzverif.Choose(4)
+	cnt, ran := 0, false
+	var errB error
+	zzverif.OnUnlock(func() {
+		if ran {
+			return
+		}
+		if cnt == k {
+			ran = true
+			errB = f.UpdateJustified(context.Background(), s.pool[2], cpB, fin, bals)
+		}
+		cnt++
+	})
+	zzverif.MustReturnWithin(800000)
+	errA := f.UpdateJustified(context.Background(), s.pool[2], cpA, fin, bals)
+	zzverif.MustReturnWithin(0)
+	zzverif.OnUnlock(nil)
+	if !ran {
+		return // call A had fewer than k+1 unlock points
+	}
+	zzverif.Reach("update-interleaved")
+	zzverif.Assert(errA == nil && errB == nil, "both overlapping updates return without error")
+	zzverif.Assert(f.Justified() == cpB, "after two overlapping UpdateJustified calls the store holds the newer justified checkpoint, as after either sequential order")
+	zzverif.Assert(zzverif.LocksHeld() == 0, "no lock is left held")
+}
